@@ -137,6 +137,56 @@ instance (c : Clause) : Decidable (WfClause c) := by
   unfold WfClause
   cases c.value <;> exact inferInstance
 
+/-! ## the accepted language
+
+`render`/`WfClause` describe the *canonical* spelling of a query.  The relation below describes every
+spelling the master accepts — "an accepted filter string means what it looks like": it is a sequence of
+clause texts joined by `" and "` (one more `" and "` may follow the last), none of which contains
+`" and "`; a clause text is a query field, one of the four operator spellings and a value text; a value
+text is a decimal literal (optional `+`/`-`, one or more digits, leading zeros allowed, within int64),
+a non-empty string between single quotes (any bytes, quotes included), or a query-field name. -/
+
+def isDec (b : UInt8) : Bool := decide (0x30 ≤ b ∧ b ≤ 0x39)
+
+/-- the number a string of decimal digits denotes -/
+def decVal (ds : Bytes) : Nat := ds.foldl (fun a d => a * 10 + (d.toNat - 48)) 0
+
+/-- `t` is a decimal literal of the integer `n` -/
+def IntLit (t : Bytes) (n : Int) : Prop :=
+  ∃ sign ds : Bytes, t = sign ++ ds ∧ (sign = [] ∨ sign = [0x2b] ∨ sign = [0x2d]) ∧ ds ≠ [] ∧
+    (∀ d ∈ ds, isDec d = true) ∧
+    n = (if sign = [0x2d] then -(decVal ds : Int) else (decVal ds : Int)) ∧
+    -(2 : Int) ^ 63 ≤ n ∧ n < (2 : Int) ^ 63
+
+/-- `t` is a spelling of the value `v` -/
+def ValText (t : Bytes) : CVal → Prop
+  | .int n => IntLit t n
+  | .str s => t = [0x27] ++ s ++ [0x27] ∧ s ≠ []
+  | .fld g => t = g ∧ g ∈ Facts.queryFields
+
+/-- `r` is a spelling of the clause `c` -/
+def ClauseText (r : Bytes) (c : Clause) : Prop :=
+  c.field ∈ Facts.queryFields ∧ ∃ t, r = c.field ++ renderOp c.op ++ t ∧ ValText t c.value
+
+/-- `" and "` does not occur in `r` -/
+def NoSep (r : Bytes) : Prop := ¬ ∃ p q : Bytes, r = p ++ andSep ++ q
+
+/-- texts and clauses correspond one to one, in order -/
+def ClausesText : List Bytes → List Clause → Prop
+  | [], [] => True
+  | r :: rs, c :: q => NoSep r ∧ ClauseText r c ∧ ClausesText rs q
+  | _, _ => False
+
+/-- texts joined by `" and "` -/
+def joinAnd : List Bytes → Bytes
+  | [] => []
+  | [r] => r
+  | r :: r' :: rs => r ++ andSep ++ joinAnd (r' :: rs)
+
+/-- `s` is a spelling of the non-empty clause list `q` -/
+def QueryText (s : Bytes) (q : List Clause) : Prop :=
+  q ≠ [] ∧ ∃ rs, ClausesText rs q ∧ (s = joinAnd rs ∨ s = joinAnd rs ++ andSep)
+
 /-! ## the listing predicate -/
 
 /-- a stored server as the listing sees it -/
